@@ -473,9 +473,110 @@ func c44(name string, buf int) e1lib.Scenario {
 	return e1lib.Scenario{Name: name, Body: body, Check: check, Cfg: rt.Config{Horizon: 20 * time.Second}}
 }
 
+// c44two: the pipeline is full (apply gated); submitter A blocks with a context that expires,
+// submitter B (no deadline) arrives while A is still blocked; A fails, the gate opens, B and a
+// later submission succeed: everything accepted must be applied.
+func c44two(name string, buf int) e1lib.Scenario {
+	body := func() {
+		ctx := vcontext.Background()
+		gate := make(chan struct{})
+		p := pipeline.NewBlockPipeline(
+			pipeline.WithDecodeWorkers(1),
+			pipeline.WithPrefetchBufferSize(buf),
+			pipeline.WithApplyFunc(func(b *pipeline.BlockItem) error {
+				rt.Recv("h:gate", gate)
+				rt.Log("apply %d", b.SequenceNumber())
+				return nil
+			}),
+		)
+		if err := p.Start(ctx); err != nil {
+			return
+		}
+		rt.Go("results", func() {
+			for range rt.Range("h:results", p.Results()) {
+			}
+		})
+		rt.Go("errors", func() {
+			for range rt.Range("h:errors", p.Errors()) {
+			}
+		})
+		f := fixtures['B']
+		// fill: buf (submit chan) + 1 (worker's hands) + buf (decoded chan) + 1 (apply) accepted without blocking
+		accepted := 0
+		for i := 0; i < 2*buf+2; i++ {
+			if err := p.Submit(ctx, f.typ, f.cbor, pcommon.Tip{}); err == nil {
+				accepted++
+			}
+		}
+		done := make(chan string, 2)
+		rt.Go("submitterA", func() {
+			sctx, cancel := vcontext.WithTimeout(ctx, 2*time.Millisecond)
+			err := p.Submit(sctx, f.typ, f.cbor, pcommon.Tip{})
+			cancel()
+			if err != nil {
+				rt.Send("h:doneA", done, "A failed")
+			} else {
+				rt.Send("h:doneA", done, "A ok")
+			}
+		})
+		vtime.Sleep(time.Millisecond)
+		rt.Go("submitterB", func() {
+			err := p.Submit(ctx, f.typ, f.cbor, pcommon.Tip{})
+			if err != nil {
+				rt.Send("h:doneB", done, "B failed")
+			} else {
+				rt.Send("h:doneB", done, "B ok")
+			}
+		})
+		vtime.Sleep(3 * time.Millisecond)
+		rt.Close("h:openGate", gate)
+		for i := 0; i < 2; i++ {
+			r := rt.Recv("h:join", done)
+			rt.Log("%s", r)
+			if strings.HasSuffix(r, " ok") {
+				accepted++
+			}
+		}
+		if err := p.Submit(ctx, f.typ, f.cbor, pcommon.Tip{}); err == nil {
+			accepted++
+		}
+		dctx, cancel := vcontext.WithTimeout(ctx, 3*time.Second)
+		p.WaitForDrain(dctx)
+		cancel()
+		vtime.Sleep(500 * time.Millisecond)
+		rt.Log("accepted %d", accepted)
+		p.Stop()
+		rt.Log("end")
+	}
+	check := func(r *rt.Result) []rt.Finding {
+		if f := verdictFinding(r); f != nil {
+			return f
+		}
+		applied, accepted, aFailed := 0, -1, false
+		for _, l := range r.Logs {
+			switch {
+			case strings.HasPrefix(l, "apply "):
+				applied++
+			case strings.HasPrefix(l, "accepted "):
+				fmt.Sscanf(l, "accepted %d", &accepted)
+			case l == "A failed":
+				aFailed = true
+			}
+		}
+		if !aFailed || accepted < 0 {
+			return nil // the situation the property talks about was not reached on this schedule
+		}
+		if applied < accepted {
+			return []rt.Finding{{Key: "c44:stalled-after-failed-submit", What: fmt.Sprintf("%d submissions succeeded but only %d blocks were applied: %s", accepted, applied, strings.Join(r.Logs, " | "))}}
+		}
+		return nil
+	}
+	return e1lib.Scenario{Name: name, Body: body, Check: check, Cfg: rt.Config{Horizon: 20 * time.Second}}
+}
+
 func TestC44(t *testing.T) {
 	e1lib.Main(t, "C44", func(thorough bool) []e1lib.Scenario {
-		scs := []e1lib.Scenario{c44("full-buf1", 1), c44("full-buf2", 2)}
+		scs := []e1lib.Scenario{c44("full-buf1", 1), c44("full-buf2", 2), c44two("two-submitters-buf1", 1)}
 		for i := range scs {
 			scs[i].MinB, scs[i].MaxB, scs[i].Budget = 0, 1, 50*time.Second
 			if thorough {
